@@ -195,6 +195,21 @@ func OffsetCorruptions(l *Layout, b []byte, maxGroups int) []Mutant {
 				}
 			}
 		}
+		// an element with an empty span that is NOT the last one (offsets stay ascending and inside the scope):
+		// offset i raised to offset i+1, or offset i+1 lowered to offset i
+		if n >= 3 {
+			seenEq := map[int]bool{}
+			for _, i := range []int{0, n/2 - 1, n - 3} {
+				if i < 0 || seenEq[i] {
+					continue
+				}
+				seenEq[i] = true
+				if g.Val[i] != g.Val[i+1] {
+					out = append(out, Mutant{"offset", d("offset %d raised to offset %d (%d): element %d has an empty span", i, i+1, g.Val[i+1], i), putOff(b, g.Pos[i], g.Val[i+1])})
+					out = append(out, Mutant{"offset", d("offset %d lowered to offset %d (%d): element %d has an empty span", i+1, i, g.Val[i], i), putOff(b, g.Pos[i+1], g.Val[i])})
+				}
+			}
+		}
 		lastI := n - 1
 		out = append(out, Mutant{"offset", d("offset %d set beyond scope (%d > %d)", lastI, g.ScopeLen+1, g.ScopeLen), putOff(b, g.Pos[lastI], uint32(g.ScopeLen+1))})
 		out = append(out, Mutant{"offset", d("offset %d set to 0xffffffff", lastI), putOff(b, g.Pos[lastI], 0xffffffff)})
